@@ -81,6 +81,12 @@ def step (l : Line) : String :=
     let cells := dedup (((stepCells F st).filter Cell.shared).map Cell.name)
     let o := obsOf l
     let observed := o.globalsChanged ++ o.suppliedChanged
+    -- writes into an object that a library function was HANDED (parameter / errors.As target) may hit whatever caller-owned
+    -- object of that type a step passes in (the storage's sentinel error value, …): may-alias by type, named `<type>.<field>`
+    -- (`F.reach` lists only functions with write sites of their own, so this is not narrowed to the step's call graph)
+    let handed := dedup (((Gen.foreignWrites.filter fun w => Go.hasPrefix w.via "param:" && w.ty == "oidc.Error").map
+      fun w => w.ty ++ "." ++ ".".intercalate w.path).filter fun p => o.suppliedChanged.any fun n => covers p n)
+    let cells := cells ++ handed
     let unexplained := observed.filter fun n => !cells.any fun p => covers p n
     -- a deterministic interleaving of two requests of this step on the one instance: what may race when it runs twice at once
     let racy := if str l "sched" == "overlap" then racyFns (F.drop _root_.C20.auditedSites _root_.C20.auditedReads) [st, st] else []
